@@ -790,6 +790,11 @@ func toDecimal64(val interface{}) (float64, error) {
 func toDecimal64List(val interface{}) ([]float64, error) {
 	switch x := val.(type) {
 	case []float64:
+		for i := 0; i < len(x); i++ {
+			if _, err := toDecimal64(x[i]); err != nil {
+				return nil, err
+			}
+		}
 		return x, nil
 	case []interface{}:
 		l := make([]float64, len(x))
